@@ -7,6 +7,7 @@ import Heathcliff.Proofs.GenRns11
 import Heathcliff.Proofs.GenRns14
 import Heathcliff.Proofs.GenRns16
 import Heathcliff.Proofs.GenRns19
+import Heathcliff.Proofs.GenRns20
 
 /- Property theorems only (statements verbatim; proofs are the helper lemmas of Heathcliff/Proofs). -/
 namespace HC.C10
@@ -246,5 +247,9 @@ theorem gen_decrypt_mod_t_eq : type_of% @HC.gr_decrypt_mod_t_eq := @HC.gr_decryp
 /-- END TO END (BGV decryption): the generated `decrypt_mod_t` returns the centred residue of `X j` modulo t (composition with C01's
     `c01p_decryptModT_of_crt`), same proviso about the floating-point rounding -/
 theorem gen_decrypt_mod_t_centred : type_of% @HC.gr_decrypt_mod_t_centred := @HC.gr_decrypt_mod_t_centred
+
+/-- END TO END (BEHZ fast floor; the composition left open in phase 4f): the generated `fast_floor` writes `(⌊Y_j/Q⌋ − α_j) mod b_i` at `i·n + j` of ANY destination
+    buffer, ONE `α_j ∈ [0, |q|)` for all `b_i ∈ Bsk` (composition of `gen_fast_floor_eq` with `fastFloor_spec`, `fastFloor_scalar`, `RNSH.crt_sum`) -/
+theorem gen_fast_floor_floor : type_of% @HC.gr_fast_floor_floor := @HC.gr_fast_floor_floor
 
 end HC.C10
